@@ -105,6 +105,13 @@ func driveLookup(c *ctx) {
 		for idx := uint64(0); idx < 16; idx++ {
 			// the destination is a fresh zero value, as in SelectAndAdd (for idx = 0 the two implementations leave it zero)
 			out, ref := new(secp256k1.VerifAffinePoint), new(secp256k1.VerifAffinePoint)
+			if idx != 0 && p.name != "zeros" {
+				// for idx >= 1 the result must be the entry whatever the destination held before (a stale / reused destination)
+				pre := make([]byte, as)
+				rng.Read(pre)
+				secp256k1.VerifSetAffineImage(out, pre)
+				secp256k1.VerifSetAffineImage(ref, pre)
+			}
 			secp256k1.VerifLookupAffine(tbl, out, idx)
 			secp256k1.VerifRefLookupAffine(tbl, ref, idx)
 			c.E("lk.Aff", "build", buildName(), "pat", p.name, "idx", int(idx), "tbl", entries,
